@@ -9,6 +9,7 @@ import (
 	"bytes"
 	"fmt"
 	"reflect"
+	"strings"
 	"sync/atomic"
 
 	"github.com/elastos/Elastos.ELA/common"
@@ -69,6 +70,12 @@ func numLeaves(v reflect.Value, path string, get func(reflect.Value) reflect.Val
 			numLeaves(v.Index(0), path+"[0]", func(r reflect.Value) reflect.Value { return get(r).Index(0) }, out, depth+1)
 		}
 	default:
+		// Output.Type is not a free field: it is the tag of the output's payload, which the encoder
+		// takes from the payload's Go type and the decoder from this byte — a value with a
+		// mismatching tag is not well-formed (the matching pairs are enumerated by the shapes)
+		if strings.HasSuffix(path, ".Outputs[0].Type") {
+			return
+		}
 		if isNumKind(v.Kind()) && v.CanSet() {
 			*out = append(*out, leaf{path, get})
 		}
@@ -145,6 +152,7 @@ func numAttempt(bc bcase, lf leaf, x uint64) (status, detail string, enc []byte)
 }
 
 func (c *ctx) runNumeric(bc bcase) {
+	bc = cached(bc)
 	r := c.r
 	root := reflect.ValueOf(bc.build())
 	var leaves []leaf
